@@ -74,6 +74,13 @@ func New(p Policy, rng *rand.Rand) *Sched {
 		MaxSteps: 2_000_000, perActor: map[string]int{}}
 }
 
+// NewPassthrough returns a scheduler whose gate never blocks (real-time mode: operations run as they come).
+func NewPassthrough() *Sched {
+	s := New(RandomWalk{}, nil)
+	s.draining = true
+	return s
+}
+
 // Gate is installed as fsmon.Monitor.Before: it blocks the calling goroutine until the scheduler
 // releases the operation. It must be called from a goroutine of the bubble.
 func (s *Sched) Gate(e *fsmon.Event) {
